@@ -962,6 +962,12 @@ class Scalars:
         if any(isinstance(x, Opaque) and x.name == 'inf' for x in (a, b)):
             # model R: every real is finite and NaN equals nothing - a float value is never equal to +-inf
             other = b if (isinstance(a, Opaque) and a.name == 'inf') else a
+            if isinstance(a, Opaque) and isinstance(b, Opaque) and a.name == b.name == 'inf':
+                same = a.sign == b.sign
+                if isinstance(op, ast.Eq):
+                    return same
+                if isinstance(op, ast.NotEq):
+                    return not same
             if is_sym(other) or isinstance(other, (int, float, MaybeNan)) or (isinstance(other, Opaque) and getattr(other, 'is_nan', False)):
                 if isinstance(op, ast.Eq):
                     return False
